@@ -107,10 +107,9 @@ func isUnsigned(t types.Type) bool {
 
 func ruleA20(r *Run, p *Prog, rule string) {
 	n := 0
-	for _, f := range p.ModFns {
-		if pkgRel(f) != diodesRel {
-			continue
-		}
+	// judged with private helpers inlined into their callers (a `lapped(old, writeIndex)` predicate
+	// is part of Set, where the operand is the fetch-add's result)
+	for _, f := range p.RootViews([]string{diodesRel}, "", nil) {
 		eachInstr(f, func(b *ssa.BasicBlock, i int, in ssa.Instruction) {
 			bo, ok := in.(*ssa.BinOp)
 			if !ok || bo.Op != token.SUB || !isUnsigned(bo.Type()) {
@@ -169,6 +168,7 @@ func ruleA21(r *Run, p *Prog, rule string) {
 	if !r.Anchor(f != nil, rule, "diodes.(*ManyToOne).Set") {
 		return
 	}
+	f = p.View(f, "", nil) // `lapped(…)` / `publish(…)` helpers are part of Set
 	var claim, cas *ssa.Call
 	eachInstr(f, func(b *ssa.BasicBlock, i int, in ssa.Instruction) {
 		if c, ok := in.(*ssa.Call); ok {
@@ -358,7 +358,7 @@ func ruleA15b(r *Run, p *Prog, rule string) {
 				if cc.Call.IsInvoke() && cc.Call.Method.Name() == "TryNext" {
 					tests = append(tests, cc)
 				}
-				if sc := staticCallee(&cc.Call); sc != nil && canonFn(sc) == "isDone" {
+				if sc := staticCallee(&cc.Call); sc != nil && isDoneFn(sc) {
 					tests = append(tests, cc)
 				}
 			})
@@ -450,7 +450,7 @@ func ruleDrainBeforeExit(r *Run, p *Prog, rule, tname string) {
 	if !r.Anchor(f != nil, rule, "(*"+tname+").Next") {
 		return
 	}
-	f = p.View(f, "keep-isDone", func(g *ssa.Function) bool { return canonFn(g) == "isDone" })
+	f = p.View(f, "keep-isDone", isDoneFn)
 	paths, complete := enumPaths(f, 2, 5000)
 	if !complete {
 		r.Fail(rule, FnName(f)+"/paths", p.Pos(f.Pos()), "cannot enumerate paths")
@@ -482,7 +482,7 @@ func ruleDrainBeforeExit(r *Run, p *Prog, rule, tname string) {
 			if c.Call.IsInvoke() && c.Call.Method.Name() == "TryNext" {
 				lastTry, tryCall = idx, c
 			}
-			if sc := staticCallee(&c.Call); sc != nil && canonFn(sc) == "isDone" {
+			if sc := staticCallee(&c.Call); sc != nil && isDoneFn(sc) {
 				lastDone, doneCall = idx, c
 			}
 		}
@@ -532,6 +532,7 @@ func ruleCloseOrder(r *Run, p *Prog, rule string) {
 	if !r.Anchor(f != nil && poll != nil, rule, "diode.Writer.Close / poll") {
 		return
 	}
+	f = p.View(f, "", nil) // a private stop() = cancel + wait is part of Close
 	label := func(in ssa.Instruction) string {
 		switch x := in.(type) {
 		case *ssa.Call:
@@ -1216,6 +1217,7 @@ func ruleSetRetryStateless(r *Run, p *Prog, rule string) {
 	if !r.Anchor(f != nil, rule, "diodes.(*ManyToOne).Set") {
 		return
 	}
+	f = p.View(f, "", nil)
 	var claim *ssa.Call
 	eachInstr(f, func(b *ssa.BasicBlock, i int, in ssa.Instruction) {
 		if c, ok := in.(*ssa.Call); ok && isCallTo(&c.Call, "sync/atomic.AddUint64") {
@@ -1321,4 +1323,28 @@ func counterSkipsAnIndex(hdr *ssa.BasicBlock) string {
 		}
 	}
 	return ""
+}
+
+// isDoneFn: the non-blocking "has the context been cancelled" predicate — by role name, or by what
+// it is: a function of the diodes package returning one bool whose body polls ctx.Done().
+func isDoneFn(g *ssa.Function) bool {
+	if g == nil {
+		return false
+	}
+	if canonFn(g) == "isDone" {
+		return true
+	}
+	if g.Blocks == nil || pkgRel(g) != diodesRel || g.Signature.Results().Len() != 1 {
+		return false
+	}
+	if b, ok := g.Signature.Results().At(0).Type().Underlying().(*types.Basic); !ok || b.Kind() != types.Bool {
+		return false
+	}
+	polls := false
+	eachInstr(g, func(b *ssa.BasicBlock, i int, in ssa.Instruction) {
+		if c, ok := in.(*ssa.Call); ok && c.Call.IsInvoke() && c.Call.Method.Name() == "Done" {
+			polls = true
+		}
+	})
+	return polls
 }
